@@ -14,7 +14,7 @@ import (
 func init() {
 	register(&Prop{
 		ID:         "C17",
-		Decided:    "(1) the group key encoder is uniquely decodable and NULL-distinct (keyenc); (2) in processRow the row is fed to the group's aggregates before the predicate is evaluated, delivery is reachable only on the true edge of shouldFire, and on every firing path the group is deleted (under its own key, while the lock is still held) before the lock is released for delivery — the group restarts empty and cannot fire twice; (3) each new group gets its own accumulators (prototype.New()), never the prototype; (3b) every aggregate reference of the predicate gets a placeholder numbered by its position (per-spec running aggregates cannot be shared and fed twice); (4) shouldFire binds each placeholder to exactly the aggregate of its spec (the output alias when reused, its own trigger aggregate otherwise); (5) every aggregate name recognised inside TRIGGER WHEN is registered as an aggregator; (6) only the Start goroutine receives from triggerChan; groups/stopped are accessed under gw.mu. Also: in the window's methods that send on its output channel, every receive from that channel (drop-oldest eviction) is followed on every path by an increment of droppedCount (flow/evicted-result-counted).",
+		Decided:    "(1) the group key encoder is uniquely decodable and NULL-distinct (keyenc); (2) in processRow the row is fed to the group's aggregates before the predicate is evaluated, delivery is reachable only on the true edge of shouldFire, and on every firing path the group is deleted (under its own key, while the lock is still held) before the lock is released for delivery — the group restarts empty and cannot fire twice; (3) each new group gets its own accumulators (prototype.New()), never the prototype; (3b) every aggregate reference of the predicate gets a placeholder numbered by its position (per-spec running aggregates cannot be shared and fed twice); (4) shouldFire binds each placeholder to exactly the aggregate of its spec (the output alias when reused, its own trigger aggregate otherwise); (5) every aggregate name recognised inside TRIGGER WHEN is registered as an aggregator; (6) only the Start goroutine receives from triggerChan; groups/stopped are accessed under gw.mu. Also: in the window's methods that send on its output channel, every receive from that channel (drop-oldest eviction) is followed on every path by an increment of droppedCount (flow/evicted-result-counted). Also: in processRow every path from feeding the row into the aggregates to a return passes the evaluation of TRIGGER WHEN (flow/trigger-evaluated-every-row).",
 		NotDecided: "the textual rewriting of the predicate and its binding to SELECT aggregates (regex based), aggregate values, NULL inputs' effect on values.",
 		Run:        runC17,
 	})
@@ -22,6 +22,7 @@ func init() {
 
 func runC17(a *A) {
 	a.Rule("keyenc/global", 1, func() { a.keyencRule("window", "GlobalWindow", "getKeyAndValues", keyencOpts{}) })
+	a.Rule("flow/trigger-evaluated-every-row", 1, func() { a.ruleTriggerEvaluatedEveryRow() })
 	a.Rule("flow/evicted-result-counted", 1, func() { a.ruleEvictedResultCounted(a.Named("window", "GlobalWindow")) })
 	a.Rule("flow/fire-and-purge", 5, func() {
 		fn := a.Method("window", "GlobalWindow", "processRow")
@@ -400,4 +401,34 @@ func (a *A) registeredAggregates() map[string]bool {
 		}
 	})
 	return out
+}
+
+// ruleTriggerEvaluatedEveryRow: TRIGGER WHEN is evaluated "for every row" of a group, after the row
+// has been fed into the running aggregates. In GlobalWindow.processRow every path from the feeding of
+// the aggregates to a return passes the predicate evaluation (shouldFire): no shortcut decides from
+// something else (a "nothing moved" flag, a cached verdict) that the predicate need not be looked at —
+// COUNT(*) that appears only in TRIGGER WHEN moves on a row whose other aggregated columns are NULL.
+func (a *A) ruleTriggerEvaluatedEveryRow() int {
+	pr := a.Method("window", "GlobalWindow", "processRow")
+	sf := a.Method("window", "GlobalWindow", "shouldFire")
+	feed := a.Func("window", "feedTriggerAggs")
+	n := 0
+	for _, c := range callsTo(pr, feed) {
+		n++
+		bad := pathToExitAvoiding(c, func(x ssa.Instruction) bool {
+			cc := callCommon(x)
+			return cc != nil && cc.StaticCallee() == sf
+		}, false)
+		pos := c.Pos()
+		if bad != nil {
+			pos = bad.Pos()
+		}
+		a.Check(bad == nil, fname(pr)+"#trigger-evaluated-every-row", pos,
+			"after a row was fed into the aggregates the trigger predicate is evaluated on every path",
+			"processRow can return after feeding a row into the aggregates without evaluating TRIGGER WHEN: a row that makes the predicate true (through an aggregate the shortcut does not look at) does not fire, and the group's result later covers extra rows")
+	}
+	if n == 0 {
+		a.anchorFail("processRow does not call feedTriggerAggs")
+	}
+	return n
 }
